@@ -1,0 +1,21 @@
+//! Verification wrappers, compiled only with `--cfg iroh_verif`.
+//!
+//! One sub-module per property: re-exports and thin constructors for crate-private items that
+//! the verification harness drives. Nothing here is used by the crate itself.
+#![allow(missing_docs, unreachable_pub, missing_debug_implementations, unused_imports, dead_code, clippy::unwrap_used)]
+
+pub mod c03;
+pub mod c04;
+pub mod c05;
+pub mod c06;
+pub mod c07;
+pub mod c08;
+pub mod c09;
+pub mod c10;
+pub mod c11;
+pub mod c12;
+pub mod c13;
+pub mod c14;
+pub mod c15;
+pub mod c16;
+pub mod c43;
